@@ -31,3 +31,11 @@ META["C06"] = {
     "text": "Exploration with exhaustive sub-spaces: for 400 (3000) weighted-cluster configurations (1..8 clusters, weights incl. 0/1/dominant, totals power of two or not, <= 4096) the WHOLE draw space [0,total) is enumerated 6 (16) times per configuration on fresh rule instances (map iteration order varies per call); each answer must be a configured cluster of non-zero weight and must be explainable by some storage order in which every cluster owns exactly weight(c) consecutive draw values. WRR: 300 (3000) weight vectors in 1..128, up to 6000 (40000) picks each, the bound |n_i/w_i-n_j/w_j| <= 1/w_i+1/w_j is checked for every window and every pair.",
     "note": "The storage order of the Go map cannot be observed, so the draw oracle is existential over orders (sound, never a false alarm; it misses deviations that some other order would explain — equal-weight configurations cannot expose an off-by-one). Trusts math/rand's Intn derivation from Int63 (self-checked at start).",
 }
+
+META["C01"] = {
+    "engine": "vworker",
+    "design_ref": "DESIGN.md §3 C01",
+    "technique": "differential against independent reference framers/parsers (byte identity with the request-id field masked, aliasing canary on the reused read buffer, reference decode of mutated frames); end-to-end recording peers through a running proxy",
+    "text": "Exploration, boundary-directed: per codec (bolt, boltv2, dubbo, dubbo-thrift, tars) 6000 (60000) generated well-formed frames — class/header/body lengths from {0,1,255..257,65535..65537,1 MiB,random}, fixed fields at {0,1,max,random}, request ids at the wrap points, heartbeats/one-way/responses — go through the real Decode/SetRequestId/Encode; checked: byte identity outside the id field, id patched, buffer consumed exactly, encoded buffer and body unchanged after the read buffer is overwritten, and frames mutated through the header/body API re-encode to bytes that an independent parser decodes to exactly the modified content with consistent length fields (or Encode errors).",
+    "note": "Reference builders use dubbo-go-hessian2 / apache thrift / TarsGo for payloads; 4 GiB length fields are exercised only as 'announced, not delivered' (C08). Dubbo requests with a non-hessian serialization id are documented as unsupported and not generated.",
+}
